@@ -9,7 +9,7 @@ CONSTANTS
   VBufs <- MC_None
   MFmts <- MC_MultiFmts
   VSizes = {0}
-  Extra = {"readall", "close"}
+  Extra = {"readall", "close", "long"}
   Naive = FALSE
   Gen = TRUE
 VIEW genview
